@@ -237,12 +237,15 @@ oer_put_quantity(size_t qty, asn_app_consume_bytes_f *cb, void *app_key) {
 }
 
 /*
- * Encode as Canonical OER.
+ * Encode as Canonical OER: SEQUENCE OF, the elements in their own order.
+ * (Declared in constr_SEQUENCE_OF.h, lives here next to the shared decoder.)
  */
+oer_type_encoder_f SEQUENCE_OF_encode_oer;
 asn_enc_rval_t
-SET_OF_encode_oer(const asn_TYPE_descriptor_t *td,
-                  const asn_oer_constraints_t *constraints, const void *sptr,
-                  asn_app_consume_bytes_f *cb, void *app_key) {
+SEQUENCE_OF_encode_oer(const asn_TYPE_descriptor_t *td,
+                       const asn_oer_constraints_t *constraints,
+                       const void *sptr, asn_app_consume_bytes_f *cb,
+                       void *app_key) {
     const asn_TYPE_member_t *elm;
     const asn_anonymous_set_ *list;
     size_t computed_size = 0;
@@ -273,6 +276,67 @@ SET_OF_encode_oer(const asn_TYPE_descriptor_t *td,
         } else {
             computed_size += er.encoded;
         }
+    }
+
+    {
+        asn_enc_rval_t erval;
+        erval.encoded = computed_size;
+        ASN__ENCODED_OK(erval);
+    }
+}
+
+/*
+ * Encode as Canonical OER: SET OF.
+ * X.696 mandates the canonical order of the elements: their encodings
+ * are sorted as octet strings (X.690, #11.6), like DER does.
+ */
+asn_enc_rval_t
+SET_OF_encode_oer(const asn_TYPE_descriptor_t *td,
+                  const asn_oer_constraints_t *constraints, const void *sptr,
+                  asn_app_consume_bytes_f *cb, void *app_key) {
+    const asn_TYPE_member_t *elm;
+    const asn_anonymous_set_ *list;
+    struct _el_buffer *encoded_els;
+    size_t computed_size = 0;
+    ssize_t qty_len;
+    int n;
+
+    (void)constraints;
+
+    if(!sptr) ASN__ENCODE_FAILED;
+
+    elm = td->elements;
+    list = _A_CSET_FROM_VOID(sptr);
+
+    qty_len = oer_put_quantity(list->count, cb, app_key);
+    if(qty_len < 0) {
+        ASN__ENCODE_FAILED;
+    }
+    computed_size += qty_len;
+
+    if(list->count > 0) {
+        /*
+         * Build an array of the encoded elements, sorted.
+         */
+        encoded_els = SET_OF__encode_sorted(elm, list, SOES_COER);
+        if(!encoded_els) ASN__ENCODE_FAILED;
+
+        /*
+         * Report encoded elements to the application.
+         * Dispose of temporary sorted members table.
+         */
+        for(n = 0; n < list->count; n++) {
+            const struct _el_buffer *encoded_el = &encoded_els[n];
+            if(encoded_el->length
+               && cb(encoded_el->buf, encoded_el->length, app_key) < 0) {
+                break;
+            }
+            computed_size += encoded_el->length;
+        }
+
+        SET_OF__encode_sorted_free(encoded_els, list->count);
+
+        if(n < list->count) ASN__ENCODE_FAILED;
     }
 
     {
